@@ -63,6 +63,7 @@ Section Rename.
     - split; cbn [fst snd]; auto.
     - destruct set; [destruct v|]; split; cbn [fst snd]; auto.
     - split; auto.
+    - split; auto.
   Qed.
 
   Lemma spec_run_rename set (key : op -> K1) : forall ops s1 s2,
